@@ -127,7 +127,7 @@ def build_scope(sc, sid):
     row('import "m/d"')
     row("")
     slotrow("D1")
-    row("func fn1(p *d.T, s d.S) {")
+    row("func fn1(p *d.T, s d.S) {", None, "TF1")
     slotrow("S11", "\t")
     row("\t" + fmt(one, 11), "a11", "T11")
     slotrow("S12", "\t")
@@ -159,7 +159,7 @@ def build_scope(sc, sid):
     f2 += ["package u", "", 'import "m/d"', ""]
     if "D4" in slots:
         f2.append(comment)
-    f2.append("func fn4(p *d.T, s d.S) {")
+    f2.append("func fn4(p *d.T, s d.S) {" + ((" " + comment) if "TF4" in slots else ""))
     if "S41" in slots:
         f2.append("\t" + comment)
     f2.append("\t" + fmt(one, 17) + ((" " + comment) if "T41" in slots else ""))
